@@ -3,7 +3,7 @@
 (* cancellation point, stream / buffered body, breaker state and pool time-out, in canonical form. *)
 EXTENDS Resilience
 
-Fail == {"fcode", "neterr", "hang", "cancel"}
+Fail == {"fcode", "neterr", "hang", "cancel", "cdl"}
 Succ == {"ok", "okc"}
 
 (* scripts of length m in canonical form: entries after the first success or after the client's  *)
@@ -11,37 +11,52 @@ Succ == {"ok", "okc"}
 (* goes on is seen to fail)                                                                       *)
 Scripts(m) ==
     {s \in [1..m -> Kinds] :
-        \A i \in 1..m : (\E j \in 1..(i - 1) : s[j] \in Succ \/ s[j] = "cancel") => s[i] = "neterr"}
+        \A i \in 1..m : (\E j \in 1..(i - 1) : s[j] \in Succ \/ s[j] \in {"cancel", "cdl"}) => s[i] = "neterr"}
+
+(* the client's own deadline: "earlier" exactly for the scripts in which it expires; otherwise none, *)
+(* or - where a pool time-out is configured - one that is later than the pool time-out              *)
+CdlKinds == {"none", "later", "earlier"}
+Cdls(s, m, t) == IF \E i \in 1..m : s[i] = "cdl" THEN {"earlier"}
+                 ELSE IF t THEN {"none", "later"} ELSE {"none"}
 
 AsSeq(f, m) == [i \in 1..m |-> f[i]]
 
 (* a Retry policy that is in effect: buffered request *)
 Retrying(Fs, Es, CBs) ==
     {[retry |-> TRUE, max |-> m, stream |-> FALSE, cb |-> c, tmo |-> t, script |-> AsSeq(s, m), cancelB |-> cb,
-      base |-> 4, f |-> f, exp |-> e] :
-        m \in 1..3, c \in CBs, t \in BOOLEAN, s \in Scripts(3), cb \in 0..3, f \in Fs, e \in Es}
+      base |-> 4, f |-> f, exp |-> e, cdl |-> d] :
+        m \in 1..3, c \in CBs, t \in BOOLEAN, s \in Scripts(3), cb \in 0..3, f \in Fs, e \in Es, d \in CdlKinds}
 
 (* no Retry policy, or a streamed body: one attempt; the script still says what further attempts would meet *)
 Single ==
     {[retry |-> r, max |-> m, stream |-> st, cb |-> c, tmo |-> t, script |-> AsSeq(s, 2), cancelB |-> cb,
-      base |-> 4, f |-> 0, exp |-> FALSE] :
-        r \in BOOLEAN, m \in {1, 3}, st \in BOOLEAN, c \in {"none", "closed", "open"}, t \in BOOLEAN, s \in Scripts(2), cb \in {0, 1}}
+      base |-> 4, f |-> 0, exp |-> FALSE, cdl |-> d] :
+        r \in BOOLEAN, m \in {1, 3}, st \in BOOLEAN, c \in {"none", "closed", "open"}, t \in BOOLEAN, s \in Scripts(2), cb \in {0, 1},
+        d \in CdlKinds}
 
 (* canonical form: parameters that cannot matter are fixed (back-off parameters need a second,    *)
 (* exponential growth a third attempt; a short-circuited request meets no backend at all)          *)
-Canonical(S) == {s \in S : /\ WellFormed(s) /\ s.cancelB <= s.max
+Canonical(S) == {s \in S : /\ s.cancelB <= s.max
                            /\ (s.max = 1 => s.f = 0)
                            /\ (s.max < 3 => ~s.exp)
-                           /\ (s.cb = "open" => /\ s.cancelB = 0 /\ ~s.exp /\ s.f = 0
-                                                /\ \A i \in 1..Len(s.script) : s.script[i] = s.script[1])}
+                           /\ (s.cb = "open" => /\ s.cancelB = 0 /\ ~s.exp /\ s.f = 0 /\ s.cdl = "none"
+                                                /\ \A i \in 1..Len(s.script) : s.script[i] = s.script[1])
+                           /\ s.cdl \in Cdls(s.script, Len(s.script), s.tmo)
+                           /\ WellFormed(s)}
 
-Unwrapped == {x \in Single : ~(x.retry /\ ~x.stream)}
+Unwrapped == Canonical({x \in Single : ~(x.retry /\ ~x.stream)})
 
-AllScenarios == Canonical(Retrying({0, 25, 50}, BOOLEAN, {"none", "closed", "open"}) \cup Unwrapped)
+(* The scenario sets, as predicates (TLC's union of two enumerated sets of records is quadratic, so *)
+(* the two disjoint families are never united: "x \in A \/ x \in B" enumerates both).              *)
+AllRetrying   == Canonical(Retrying({0, 25, 50}, BOOLEAN, {"none", "closed", "open"}))
 (* the quick tier: two randomisation factors, breaker present *)
-QuickScenarios == Canonical(Retrying({0, 50}, BOOLEAN, {"closed", "open"}) \cup Unwrapped)
+QuickRetrying == Canonical(Retrying({0, 50}, BOOLEAN, {"closed", "open"}))
 (* for the negative controls *)
 SmallScenarios == Canonical(Retrying({0}, {FALSE}, {"closed"}))
+
+InAll(x)   == x \in AllRetrying \/ x \in Unwrapped
+InQuick(x) == x \in QuickRetrying \/ x \in Unwrapped
+InSmall(x) == x \in SmallScenarios
 
 GenWaits == {0, 1, 2, 3, 4, 5, 6, 8, 9}
 
